@@ -79,6 +79,7 @@ def run(ctx, tier):
     ctx.rule("R1b", "form-urlencoded serializer: ' ' (already escaped?) handled by exactly ' '->'+' on key and value")
     ctx.rule("R2", "hex table format and use shape")
     ctx.rule("R3", "component <-> encode set map")
+    ctx.rule("R3b", "functions that receive the set as a parameter encode only with it")
     ctx.rule("R4", "decode-side tables map exactly the hex digits")
     ctx.rule("R5", "encoder loop: hex on bit_at true edge, verbatim on false edge, same byte")
     ctx.rule("R6", "bit_at layout")
@@ -167,10 +168,42 @@ def check_config(ctx, fx, cfg):
                       "use of hex[] is not append(hex + uint8_t(x)*4, 3): " + X.show(n), where=s.get("loc", ""))
     ctx.floor("R2", uses, 4, "references to hex[]")
 
+    # ---- R3b: a function that receives the encode set as a parameter uses that parameter ---------
+    ngen = 0
+    for f in fx.functions:
+        setparams = [p for p in f.get("params", []) if p["ty"].replace(" ", "") in ("constuint8_t*", "constuint8_t[]")
+                     and ("set" in p["name"])]
+        if not setparams or not f.get("blocks"):
+            continue
+        if f["qname"].startswith("ada::unicode::") or f["qname"].startswith("ada::character_sets::"):
+            continue
+        ngen += 1
+        pid = setparams[0]["id"]
+        concrete = [(n, s) for n, s, b in C.all_nodes(f) if n.get("k") == "ref" and n.get("kind") == "global"
+                    and n.get("qname", "").endswith("_PERCENT_ENCODE")]
+        ctx.check("R3b", "%s encodes only with the set it is given" % f["key"].split("(")[0], not concrete,
+                  "no concrete set named inside",
+                  "%s receives the percent-encode set as parameter `%s` but also names %s: part of the component is "
+                  "encoded with a different set than the one the caller selected"
+                  % (f["qname"], setparams[0]["name"], sorted(set(n["qname"].split("::")[-1] for n, s in concrete))),
+                  where=(concrete[0][1].get("loc", "") if concrete else f["loc"]).replace("/repo/", ""))
+        for n, s, b in C.all_nodes(f):
+            if n.get("k") == "call" and n.get("qname") in ("ada::unicode::percent_encode", "ada::unicode::percent_encode_index") \
+                    and len(n.get("args", [])) >= 2:
+                a1 = X.strip(n["args"][1])
+                ok = a1.get("k") == "ref" and a1.get("id") == pid
+                ctx.check("R3b", "%s: %s uses the parameter" % (f["key"].split("(")[0], n.get("name")), ok, X.show(a1),
+                          "%s is called with %s instead of the set parameter" % (n.get("name"), X.show(a1)),
+                          where=s.get("loc", "").replace("/repo/", ""))
+    ctx.floor("R3b", ngen, 2, "functions taking the encode set as a parameter")
+
     # ---- R3 ------------------------------------------------------------------
     nref = 0
     seen_fns = set()
     for f in fx.functions:
+        if any(p["ty"].replace(" ", "") in ("constuint8_t*", "constuint8_t[]") and "set" in p["name"]
+               for p in f.get("params", [])) and not f["qname"].startswith("ada::unicode::"):
+            continue      # decided by R3b
         refs = []
         for n, s, b in C.all_nodes(f):
             if n.get("k") == "ref" and n.get("kind") == "global" and n.get("qname", "").startswith(ns) \
